@@ -563,6 +563,15 @@ theorem stepP_G3 {r : Fin n} {s s' : St n} (h : G3 r s) (e : Ev n) (hs : stepP r
         · right; right; exact hh)
       exact need_congr rfl rfl rfl rfl _ old
 
+theorem stepTend_G3 {r : Fin n} {s s' : St n} (h : G3 r s) (v : Fin n) (hs : stepTend r s v = some s') : G3 r s' := by
+  unfold stepTend at hs
+  split at hs
+  · rename_i hg
+    have hrv : r ≠ v := fun e => hg.2.1 e.symm
+    cases hs
+    exact h.frame (by simp [hrv]) (Or.inl rfl) rfl rfl rfl rfl rfl rfl rfl
+  · cases hs
+
 theorem init_G3 (r : Fin n) : G3 r (init r) := by
   refine ⟨?_, ?_, ?_, ?_, ?_, ?_, ?_, ?_, ?_⟩
   · simp [init]
@@ -585,6 +594,7 @@ theorem step_G3 {r : Fin n} {s s' : St n} (h1 : G1 r s) (h : G3 r s) (e : Ev n) 
   | searchResult v => exact stepSearchResult_G3 h v hs
   | searchLeave v m => exact stepSearchLeave_G3 h1 h v m hs
   | spawn v p => exact stepSpawn_G3 h v p hs
+  | tend v => exact stepTend_G3 h v hs
   | exit v => exact stepExit_G3 h v hs
   | eRdPre x => exact stepERdPre_G3 h x hs
   | eRd x b => exact stepERd_G3 h x b hs
